@@ -1,7 +1,7 @@
 (* C10 — concurrent requests are race-free, serialisable, and see immutable snapshots. *)
 From Coq Require Import Permutation.
 From VP Require Import Base Nonce NonceProofs Store StoreProofs Pool PoolProofs BalanceProofs Conc ConcProofs
-                       SerialProofs SerialFull SoloPool Mixed Snapshot SnapshotProofs Locks LocksProofs.
+                       SerialProofs SerialFull SoloPool Mixed Deposit DepositProofs Snapshot SnapshotProofs Locks LocksProofs.
 From VPgen Require Import Facts.
 
 (* (a) every store operation is atomic: the in-memory driver takes its mutex before touching any
@@ -147,3 +147,15 @@ Theorem c10_inplace_breaks :
   read (ms_heap (mrun Fresh (mrun Fresh ms0 [MAdd 1 14]) [MAdd 1 7])) 0%nat = 14.
 Proof. exact inplace_breaks. Qed.
 Print Assumptions c10_snapshot_stable.
+
+(* what a request reads of a wallet's on-chain deposit while other requests settle it (the
+   production balance store: ContractPayment's cache in front of the contract, Deposit.v): in
+   every reachable state of every history of deposits, earnings, withdrawals, minings and
+   restarts a read answers the contract's own pending view — never a settlement that has not been
+   submitted, never an older value than one that has.  The real store is compared with this
+   model in C07's contract cases, and read during a failing submission in `contract-settle-in-flight`. *)
+Theorem c10_deposit_reads_coherent : forall cfg ops v c,
+  dc_refresh_on_settle cfg = true -> 0 <= dc_fee cfg ->
+  Deposit.read (drun cfg d0 ops) = (Some v, c) -> v = eff (drun cfg d0 ops).
+Proof. exact reads_are_coherent. Qed.
+Print Assumptions c10_deposit_reads_coherent.
